@@ -42,7 +42,13 @@ int main(int argc, char** argv) {
                 else if (pt == CARQUET_PHYSICAL_INT96) st = carquet_encode_plain_int96((carquet_int96_t*)in, count, &buf); else if (pt == CARQUET_PHYSICAL_FLOAT) st = carquet_encode_plain_float((float*)in, count, &buf); else if (pt == CARQUET_PHYSICAL_DOUBLE) st = carquet_encode_plain_double((double*)in, count, &buf);
                 else if (pt == CARQUET_PHYSICAL_FIXED_LEN_BYTE_ARRAY) st = carquet_encode_plain_fixed_byte_array(in, count, (int32_t)p2, &buf); else { uint8_t** own; carquet_byte_array_t* a = parse_ba(in, len, count, &own); st = carquet_encode_plain_byte_array(a, count, &buf); for (uint32_t i = 0; i < count; i++) free(own[i]); free(own); free(a); }
                 out_rec(o, (uint32_t)st, (uint32_t)buf.size, buf.data, buf.size); break; }
-            case 1: st = carquet_rle_encode_all((uint32_t*)in, count, (int)p1, &buf); out_rec(o, (uint32_t)st, (uint32_t)buf.size, buf.data, buf.size); break;
+            case 1: if (!p2) st = carquet_rle_encode_all((uint32_t*)in, count, (int)p1, &buf);
+                    else { /* the streaming encoder fed run by run: put_repeat for whole runs and for parts of runs, put otherwise (chosen by p2) */ const uint32_t* v = (const uint32_t*)in; carquet_rle_encoder_t se; carquet_rle_encoder_init(&se, &buf, (int)p1); uint64_t plan = (uint64_t)p2 * 0x9E3779B97F4A7C15ULL + count;
+                        for (uint32_t i = 0; i < count && st == CARQUET_OK;) { uint32_t j = i; while (j < count && v[j] == v[i]) j++; int64_t run = (int64_t)j - i; plan = plan * 6364136223846793005ULL + 1442695040888963407ULL; int mode = (int)((plan >> 33) % 3);
+                            if (mode == 0) st = carquet_rle_encoder_put_repeat(&se, v[i], run); else if (mode == 1 && run >= 2) { int64_t a = 1 + (int64_t)((plan >> 40) % (uint64_t)(run - 1)); st = carquet_rle_encoder_put_repeat(&se, v[i], a); if (st == CARQUET_OK) st = carquet_rle_encoder_put_repeat(&se, v[i], run - a); } else for (int64_t q = 0; q < run && st == CARQUET_OK; q++) st = carquet_rle_encoder_put(&se, v[i]);
+                            i = j; }
+                        if (st == CARQUET_OK) st = carquet_rle_encoder_flush(&se); }
+                    out_rec(o, (uint32_t)st, (uint32_t)buf.size, buf.data, buf.size); break;
             case 2: st = carquet_rle_encode_levels((int16_t*)in, count, (int)p1, &buf); out_rec(o, (uint32_t)st, (uint32_t)buf.size, buf.data, buf.size); break;
             case 3: { size_t cap = ((size_t)count + 7) / 8 * p1 + 8; uint8_t* d = v_exact(cap); size_t w = carquet_bitpack_32((uint32_t*)in, count, (int)p1, d); out_rec(o, 0, (uint32_t)w, d, w); free(d); break; }
             case 4: case 5: { size_t cap = (size_t)count * 12 + 2000; uint8_t* d = v_exact(cap); size_t w = 0; st = kind == 4 ? carquet_delta_encode_int32((int32_t*)in, (int32_t)count, d, cap, &w) : carquet_delta_encode_int64((int64_t*)in, (int32_t)count, d, cap, &w); out_rec(o, (uint32_t)st, (uint32_t)w, d, st == CARQUET_OK ? w : 0); free(d); break; }
